@@ -1,1 +1,7 @@
-import ScsiVerif.Model.Conv
+-- root of the `ScsiVerif` library: everything that `setup` builds
+import ScsiVerif.Gen.Tables
+import ScsiVerif.Gen.Opcodes
+import ScsiVerif.Gen.Commands
+import ScsiVerif.Gen.Facade
+import ScsiVerif.Gen.Sense
+import ScsiVerif.Props.C10
